@@ -70,7 +70,8 @@ Definition datum_encodable (d : datum) : bool :=
   match d with
   | DVal v | DData v => match encode v with Some _ => true | None => false end
   | DOut a kw => match encode (VList a), encode (VDict kw) with Some _, Some _ => true | _, _ => false end
-  | DExn _ | DOpExn _ => true
+  | DExn (EUser ty) => negb (str_eqb ty (U"UnserError"))     (* an exception object that cannot be encoded *)
+  | DExn _ | DOpExn _ => true                                 (* the operation entry holds _serializable_exception_form (:437-449) *)
   end.
 Definition stored_encodable (st : stored) : bool :=
   forallb (fun kd => datum_encodable (snd kd)) (fst st) &&
